@@ -74,7 +74,12 @@ pub fn parse_entry(s: &str) -> Result<Entry, String> {
     }
     let mut kv: Vec<(String, Vec<u8>)> = vec![];
     if !rest.is_empty() {
-        for pair in rest.split(',') {
+        let pairs: Vec<&str> = rest.split(',').collect();
+        for (i, pair) in pairs.iter().enumerate() {
+            if pair.is_empty() && i + 1 == pairs.len() {
+                // libdbus tolerates one trailing comma
+                break;
+            }
             let (k, v) = pair.split_once('=').ok_or("'=' not found in a key=value pair")?;
             if k.is_empty() {
                 return Err("empty key".into());
